@@ -239,8 +239,9 @@ Definition c07_getitem (a : list Z) : list Z :=
               | 3 loc off size | 4 dst src size | 5 src dst
    op:        <basic op> | 6 <bvec ccode> aloc asize nbody <basic ops> roff rsize oloc osize
    input:     <bvec calldata> <bvec code> nops <ops>
+   input:     ... optionally followed by  roff rsize  (the frame ends with RETURN / REVERT)
    output:    status (0 ok, 1 halt, 2 python exception, 3 malformed input)
-              [len; nlayout; layout...; nflat; flat...; nrd; rd...; msize]  *)
+              [len; nlayout; layout...; nflat; flat...; nrd; rd...; msize; nout; out...]  *)
 Definition dec_leaf (l : list Z) : option (chunk Z * list Z) :=
   match l with
   | sym :: n :: r1 =>
@@ -338,12 +339,12 @@ Definition dec_mop (l : list Z) : option (mop Z * list Z) :=
   | [] => None
   end.
 
-Fixpoint dec_mops (k : nat) (l : list Z) : option (list (mop Z)) :=
+Fixpoint dec_mops (k : nat) (l : list Z) : option (list (mop Z) * list Z) :=
   match k with
-  | O => Some []
+  | O => Some ([], l)
   | S k' =>
       match dec_mop l with
-      | Some (o, r) => match dec_mops k' r with Some os => Some (o :: os) | None => None end
+      | Some (o, r) => match dec_mops k' r with Some (os, r2) => Some (o :: os, r2) | None => None end
       | None => None
       end
   end.
@@ -354,15 +355,20 @@ Definition c07_mem (a : list Z) : list Z :=
       match dec_bvec r with
       | Some (code, n :: r1) =>
           match dec_mops (zn n) r1 with
-          | Some ops =>
+          | Some (ops, tail) =>
               match m_run 0 (ME cd code) (MF empty empty) ops with
               | ROk st =>
                   let t := m_mem st in
                   let l := flat_map (fun kc => lay (snd kc) (fst kc)) (chunks t) in
                   let f := flat t in
                   let rd := flat (m_rd st) in
+                  (* the frame ends with RETURN / REVERT (roff, rsize): State.ret = mslice *)
+                  let out := match tail with
+                             | roff :: rsize :: _ => flat (mslice 0 t (zn roff) (zn rsize))
+                             | _ => []
+                             end in
                   [0; nz (blen t); nz (List.length l)] ++ l ++ [nz (List.length f)] ++ f
-                    ++ [nz (List.length rd)] ++ rd ++ [nz (msize t)]
+                    ++ [nz (List.length rd)] ++ rd ++ [nz (msize t)] ++ [nz (List.length out)] ++ out
               | RHalt => [1]
               | RErr => [2]
               end
